@@ -101,6 +101,17 @@ CHECKS = {
         "runtime oracle: real dump/load round trip vs independent Gaussian-basis evaluator",
         "4/C01",
     ),
+    "C03": (
+        "exploration",
+        "For 33 writer modules covering all 25 readable formats (independent writers following the public specifications; "
+        "qchemlog/cp2klog by template perturbation of corpus files) random models are generated per class (field-width "
+        "boundaries with touching fields, negative/wide numbers, D exponents, optional sections absent, section orders, line "
+        "remainders), written to files, loaded with the real load_one/load_many and every expected value compared (units by "
+        "R.units, tolerance half a unit of the writer's last digit); wavefunctions are compared as functions of space. Classes "
+        "whose expectation is a judgement call are generated but not asserted (NOT_ASSERTED in each writer).",
+        "runtime oracle: independent specification-following writers vs the real readers",
+        "4/C03",
+    ),
 }
 
 NOT_YET = "check not built yet (work in progress; see DESIGN.md section 5b)"
